@@ -49,6 +49,13 @@ CLAIMED = {
          "Necessary conditions for 'no two simultaneously live registers share a machine register'; the colouring/spilling algorithm is not decided.",
          "Trusted: syn; rustc MIR; petgraph; spec/isa.txt written from the FuelVM ISA and fuel-asm/fuel-vm 0.66.4.",
          "DESIGN.md §3 C08"),
+ "C15": ("E-MIR", "other", "lint-configuration check + MIR enumeration of iteration over randomly seeded hash collections with order-insensitive-sink idioms (forward iterator-chain following) + who-may-call rule on ambient sources",
+         "Decides: the project's deny lint on hash-order iteration stays armed for every output-affecting crate; every iteration-API call on a "
+         "RandomState / hashbrown-default / DashMap collection in those crates ends in an order-insensitive sink or is an individually reviewed "
+         "site; clock / pid / thread / read_dir / RandomState::new / rand / env calls occur only at reviewed sites. A new order-observing "
+         "iteration or ambient call alarms. Byte-identical artifacts as a whole (thread scheduling, ordered-container logic) are not decided.",
+         "Trusted: rustc MIR; reviewed sites (spec/c15_sites.txt: 18, two marked advisory; spec/c15_ambient.txt: 18).",
+         "DESIGN.md §3 C15"),
  "C16": ("E-MIR", "other", "MIR call-graph cone + panic-site enumeration with guard idioms; Span constructor encapsulation; char-boundary provenance (backward slices, inter-procedural through params/captures) of every offset handed to the lexer's span constructors",
          "Decides: every potentially panicking MIR construct reachable from lex / lex_commented / parse_file / parse_module_kind is "
          "discharged by a machine-checked idiom or a reviewed exactly-keyed site (any new site alarms); Span values can only be built "
